@@ -295,3 +295,18 @@ Definition chk_iwp_marginals (tol sigma asp : Q) (dt : list Q) (obs_cols : list 
   list_eqb (sym_close (Q2Qc tol))
            (iwp_marginals (Q2Qc sigma) (Q2Qc asp) (qcl dt) (0, 0, 0))
            (map (fun c => colsum (qcpl c)) obs_cols).
+
+(* response columns of the generic 2-D generator (any drift / amplitude matrices) *)
+Definition chk_gmp2_cols (tol : Q) (drift diffamp : list ((Q * Q) * (Q * Q))) (obs : list (list (Q * Q))) : bool :=
+  list_eqb (row_match (pair_cmp (qc_close (Q2Qc tol))) (0, 0))
+           (iwp_cols [(1, 0); (0, 1)] (map qmat drift) (map qmat diffamp)) (map qcpl obs).
+
+(* the state as a linear function of the unit excitations: sum_j e_j * column_j *)
+Fixpoint apply_cols (cols : list (Qc * Qc)) (e : list Qc) : Qc * Qc :=
+  match cols, e with
+  | c :: cs, x :: es => vadd2 (x * fst c, x * snd c) (apply_cols cs es)
+  | _, _ => (0, 0)
+  end.
+
+(* excitations in the order of the columns: xi_k0, xi_k1 for k = 0, 1, ... *)
+Definition flat_xi (xis : list (Qc * Qc)) : list Qc := flat_map (fun p => [fst p; snd p]) xis.
